@@ -328,16 +328,22 @@ pub fn escape_str(s: &str) -> String {
 pub struct Printer {
     pub style: Style,
     out: String,
+    /// byte span of every expression node, in pre-order (the order of `children`)
+    pub spans: Vec<(usize, usize)>,
 }
 
 impl Printer {
     pub fn print(e: &E, style: Style) -> String {
+        Self::print_with_spans(e, style).0
+    }
+    pub fn print_with_spans(e: &E, style: Style) -> (String, Vec<(usize, usize)>) {
         let mut p = Printer {
             style,
             out: String::new(),
+            spans: Vec::new(),
         };
         p.expr(e);
-        p.out
+        (p.out, p.spans)
     }
     fn s(&mut self, t: &str) {
         self.out.push_str(t);
@@ -357,12 +363,17 @@ impl Printer {
     fn glued(&mut self, e: &E) {
         const OPCH: &str = "!$:~+-&|^=<>*/%";
         let start = self.out.len();
+        let first_span = self.spans.len();
         self.expr(e);
         let prev = self.out[..start].chars().last();
         let next = self.out[start..].chars().next();
         if let (Some(p), Some(n)) = (prev, next) {
             if OPCH.contains(p) && (OPCH.contains(n) || (p == '/' && n == '*')) {
                 self.out.insert(start, ' ');
+                for sp in self.spans[first_span..].iter_mut() {
+                    sp.0 += 1;
+                    sp.1 += 1;
+                }
             }
         }
     }
@@ -545,6 +556,12 @@ impl Printer {
         }
     }
     pub fn expr(&mut self, e: &E) {
+        let my = self.spans.len();
+        self.spans.push((self.out.len(), 0));
+        self.expr_inner(e);
+        self.spans[my].1 = self.out.len();
+    }
+    fn expr_inner(&mut self, e: &E) {
         match e {
             E::Null => self.s("null"),
             E::True => self.s("true"),
